@@ -46,6 +46,18 @@ fn check_alpha(sym: &[u8], text: &[u8]) -> Result<(), String> {
         if a.is_word(&text) != text.iter().all(member) { return Err("is_word differs from membership of all symbols".into()); }
         let mut s = sym.clone(); s.sort(); s.dedup();
         if a.len() != s.len() { return Err("len differs".into()); }
+        // set operations against the second alphabet (the symbols of the text) and the maximum symbol
+        {
+            let b = Alphabet::new(&text);
+            let mut tset = text.clone(); tset.sort(); tset.dedup();
+            let want = |f: &dyn Fn(u8) -> bool| -> Vec<u8> { (0..=255u8).filter(|c| f(*c)).collect() };
+            let got = |x: &Alphabet| -> Vec<u8> { (0..=255u8).filter(|c| x.is_word(&[*c])).collect() };
+            if got(&a.intersection(&b)) != want(&|c| s.contains(&c) && tset.contains(&c)) { return Err("intersection differs from the set intersection".into()); }
+            if got(&a.difference(&b)) != want(&|c| s.contains(&c) && !tset.contains(&c)) { return Err("difference differs from the set difference".into()); }
+            if got(&a.union(&b)) != want(&|c| s.contains(&c) || tset.contains(&c)) { return Err("union differs from the set union".into()); }
+            if a.max_symbol() != s.last().cloned() { return Err(format!("max_symbol {:?}, want {:?}", a.max_symbol(), s.last())); }
+            if a.is_empty() != s.is_empty() { return Err("is_empty differs".into()); }
+        }
         let rt = RankTransform::new(&a);
         for (r, &c) in s.iter().enumerate() { if rt.get(c) as usize != r { return Err(format!("rank of {} is {}, want {}", c, rt.get(c), r)); } }
         let rc = dna::revcomp(dna::revcomp(&text));
